@@ -16,8 +16,28 @@
 import Minicbor.Types
 import Minicbor.Lemmas.NoPanic
 import Minicbor.Lemmas.SkipLocal
+import Minicbor.Lemmas.TokenBasic
 
 namespace Minicbor.Dec
+
+/-- inversion of a successful bind. -/
+theorem bind_ok_inv {m : Dec α} {f : α → Dec β} {bs : Bytes} {b : β} {r : Bytes}
+    (h : (m >>= f) bs = .ok b r) : ∃ a r', m bs = .ok a r' ∧ f a r' = .ok b r := by
+  rw [Dec.bind_run] at h
+  cases hmb : m bs with
+  | ok a r' => rw [hmb] at h; exact ⟨a, r', rfl, h⟩
+  | err e r' => rw [hmb] at h; cases h
+  | panic => rw [hmb] at h; cases h
+
+/-- inversion of a failing bind. -/
+theorem bind_err_inv {m : Dec α} {f : α → Dec β} {bs : Bytes} {e : Err} {r : Bytes}
+    (h : (m >>= f) bs = .err e r) :
+    m bs = .err e r ∨ ∃ a r', m bs = .ok a r' ∧ f a r' = .err e r := by
+  rw [Dec.bind_run] at h
+  cases hmb : m bs with
+  | ok a r' => rw [hmb] at h; exact .inr ⟨a, r', rfl, h⟩
+  | err e' r' => rw [hmb] at h; cases h; exact .inl rfl
+  | panic => rw [hmb] at h; cases h
 
 /-! ### Suffix -/
 
@@ -117,16 +137,16 @@ macro "suffix" : tactic =>
   `(tactic| repeat' (first
       | exact Suffix.pure _ | exact Suffix.fail _ | exact Suffix.read | exact Suffix.current
       | exact Suffix.peek | exact Suffix.remaining | exact Suffix.readSlice _ | exact Suffix.panic
-      | assumption | apply_assumption
-      | refine Suffix.bind ?_ (fun _ => ?_) | split))
+      | assumption | solve_by_elim -exfalso -symm (maxDepth := 2)
+      | refine Suffix.bind ?_ (fun _ => ?_) | apply Suffix.ite | split | dsimp only))
 
 /-- the same for `NoPanic`, also splitting `match`. -/
 macro "nopanic'" : tactic =>
   `(tactic| repeat' (first
       | exact NoPanic.pure _ | exact NoPanic.fail _ | exact NoPanic.read | exact NoPanic.current
       | exact NoPanic.peek | exact NoPanic.remaining | exact NoPanic.readSlice _
-      | assumption | apply_assumption
-      | refine NoPanic.bind ?_ (fun _ => ?_) | split))
+      | assumption | solve_by_elim -exfalso -symm (maxDepth := 2)
+      | refine NoPanic.bind ?_ (fun _ => ?_) | apply NoPanic.ite | split | dsimp only))
 
 /-! ### EoiNil -/
 
@@ -151,6 +171,10 @@ namespace SizedBy
 
 theorem mono {c c' : Nat} {sz sz' : α → Nat} {m : Dec α} (h : SizedBy c sz m) (hc : c ≤ c')
     (hs : ∀ a, sz' a ≤ sz a) : SizedBy c' sz' m := by
+  intro bs a r e; have := h bs a r e; have := hs a; omega
+
+theorem weaken {c c' : Nat} {sz sz' : α → Nat} {m : Dec α} (h : SizedBy c sz m)
+    (hs : ∀ a, sz' a + c ≤ sz a + c') : SizedBy c' sz' m := by
   intro bs a r e; have := h bs a r e; have := hs a; omega
 
 theorem pure {c : Nat} {sz : α → Nat} {a : α} (h : sz a ≤ c) : SizedBy c sz (Pure.pure a : Dec α) := by
@@ -201,6 +225,41 @@ theorem to_consumes {m : Dec α} {sz : α → Nat} {k : Nat} (h : SizedBy 0 sz m
   intro bs a r e; have := h bs a r e; have := hk a; omega
 
 end SizedBy
+
+/-- total size of a list of values. -/
+def listSz (sz : α → Nat) : List α → Nat
+  | [] => 0
+  | a :: l => sz a + listSz sz l
+
+@[simp] theorem listSz_nil (sz : α → Nat) : listSz sz [] = 0 := rfl
+@[simp] theorem listSz_cons (sz : α → Nat) (a : α) (l : List α) : listSz sz (a :: l) = sz a + listSz sz l := rfl
+
+theorem listSz_append (sz : α → Nat) (l₁ l₂ : List α) : listSz sz (l₁ ++ l₂) = listSz sz l₁ + listSz sz l₂ := by
+  induction l₁ with
+  | nil => simp
+  | cons a l ih => simp [ih]; omega
+
+theorem listSz_flatten (sz : α → Nat) (ls : List (List α)) : listSz sz ls.flatten = listSz (listSz sz) ls := by
+  induction ls with
+  | nil => rfl
+  | cons l ls ih => simp [listSz_append, ih]
+
+theorem length_le_listSz (sz : α → Nat) (h : ∀ a, 1 ≤ sz a) (l : List α) : l.length ≤ listSz sz l := by
+  induction l with
+  | nil => simp
+  | cons a l ih => have := h a; simp; omega
+
+theorem SizedBy.readSlice (c n : Nat) : SizedBy c (fun b => c + b.length) (Dec.readSlice n) := by
+  intro bs a r h
+  unfold Dec.readSlice at h
+  split at h
+  · cases h; simp; omega
+  · cases h
+
+theorem SizedBy.typeMismatch (c : Nat) (sz : α → Nat) (b : UInt8) : SizedBy c sz (Dec.typeMismatch b : Dec α) := by
+  intro bs a r h
+  have := Consumes.typeMismatch (α := α) b (bs.length + 1) bs a r h
+  omega
 
 /-- `Suffix` gives `Consumes _ 0`. -/
 theorem Suffix.consumes0 {m : Dec α} (h : Suffix m) : Consumes m 0 := by
